@@ -32,7 +32,7 @@ ASSUMPTIONS = [
     "clock frozen with freezegun; host name identical (same process)",
 ]
 BUDGET = {"quick": (160, 4), "thorough": (24000, 16)}
-REQUIRED = ["sibling_histories", "ancestor_matches_pattern", "ancestor_ascmhl", "relative_invocation", "trailing_slash", "dot_invocation", "relocated_verify", "ancestor_glob_chars"]
+REQUIRED = ["sibling_histories", "ancestor_matches_pattern", "ancestor_ascmhl", "relative_invocation", "trailing_slash", "dot_invocation", "relocated_verify", "ancestor_glob_chars", "case_colliding_siblings"]
 
 CFG = {
     "kinds": ["create"] * 8 + ["put_new", "mkdir"],
@@ -60,6 +60,17 @@ def _scn(draw):
                 sibs.append(n)
         pre = [{"op": "create", "root": n, "formats": draw(gen.formats(2)), "flags": []} for n in draw(st.permutations(sibs))]
         scn["steps"] = pre + scn["steps"]
+    if draw(st.integers(0, 2)) == 0:
+        # siblings whose names differ only in case (files, folders, and folders with a history of their own)
+        used = hist.top_names_used(scn)
+        if not ({"Clip.mov", "clip.mov", "CLIP.MOV", "Cards"} & used):
+            scn["tree"]["Clip.mov"] = "one"
+            scn["tree"]["clip.mov"] = "two"
+            scn["tree"]["CLIP.MOV"] = "three"
+            scn["tree"]["Cards"] = {"a01": {"x": "1"}, "A01": {"x": "2"}, "a01.txt": "f", "A01.TXT": "g"}
+            if draw(st.booleans()):
+                scn["steps"] = [{"op": "create", "root": r, "formats": ["md5"], "flags": []} for r in draw(st.permutations(["Cards/a01", "Cards/A01"]))] + scn["steps"]
+            scn["case_twins"] = True
     scn["steps"].append({"op": "create", "root": "", "formats": draw(gen.formats(2)), "flags": []})
     pat = draw(st.sampled_from([None, None, "tmp*", "*.bak", "cache", "cache/"]))
     scn["pattern"] = pat
@@ -190,6 +201,8 @@ def run_case(scn, ctx):
             kids = [r for r in rootsA if r != a and w.deepest_root(r, rootsA, for_dir_entry=True) == a]
             if len(kids) >= 2:
                 feats.add("sibling_histories")
+        if scn.get("case_twins"):
+            feats.add("case_colliding_siblings")
         if "ascmhl" in scn["ancestors"]:
             feats.add("ancestor_ascmhl")
         if any(c in a for a in scn["ancestors"] for c in "[*?"):
